@@ -332,20 +332,26 @@ class Inliner:
             env[h.vararg] = ast.Tuple(elts=list(extra), ctx=ast.Load())
         elif h.vararg:
             env[h.vararg] = ast.Tuple(elts=[], ctx=ast.Load())
+        extra_kw = []
         for k in call.keywords:
-            if k.arg is None or (k.arg not in params and k.arg not in h.kwonly):
+            if k.arg is None:
+                return None
+            if k.arg not in params and k.arg not in h.kwonly:
+                if h.kwarg:
+                    extra_kw.append(k)
+                    continue
                 return None
             if k.arg in env:
                 return None
             env[k.arg] = k.value
+        if h.kwarg:
+            env[h.kwarg] = ast.Dict(keys=[ast.Constant(value=k.arg) for k in extra_kw], values=[k.value for k in extra_kw])
         for p in params + h.kwonly:
             if p not in env:
                 if p in h.defaults:
                     env[p] = h.defaults[p]
                 else:
                     return None
-        if h.kwarg:
-            return None
         return env
 
     # ------------------------------------------------------------------------------------------------ 2. inlining
@@ -440,7 +446,12 @@ class Inliner:
 
         def stmt_inline(stmts):
             out = []
-            for st in stmts:
+            skip_next = False
+            for pos_, st in enumerate(stmts):
+                if skip_next:
+                    skip_next = False
+                    continue
+                nxt_ = stmts[pos_ + 1] if pos_ + 1 < len(stmts) else None
                 for fld in ('body', 'orelse', 'finalbody'):
                     L = getattr(st, fld, None)
                     if isinstance(L, list) and L and isinstance(L[0], ast.stmt) and not isinstance(st, (ast.FunctionDef, ast.ClassDef)):
@@ -507,6 +518,24 @@ class Inliner:
                     tgt = st.targets[0]
                     new = _convert_returns(body, lambda v: [ast.copy_location(ast.Assign(targets=[astcopy(tgt)],
                                                                                         value=v if v is not None else ast.Constant(value=None)), st)])
+                    if new is None and isinstance(nxt_, ast.Return) and nxt_.value is not None and ast.unparse(nxt_.value) == ast.unparse(tgt):
+                        # `t = h(..); return t`: every `return e` of the helper becomes `t = e; return t` wherever it stands
+                        class RR(ast.NodeTransformer):
+                            def visit_Return(self, n):
+                                a_ = ast.copy_location(ast.Assign(targets=[astcopy(tgt)], value=n.value if n.value is not None else ast.Constant(value=None)), n)
+                                r_ = ast.copy_location(ast.Return(value=astcopy(nxt_.value)), n)
+                                return [a_, r_]
+
+                            def visit_FunctionDef(self, n):
+                                return n
+
+                            def visit_Lambda(self, n):
+                                return n
+                        new = [RR().visit(b) for b in body]
+                        new = [y for x in new for y in (x if isinstance(x, list) else [x])]
+                        if not (new and isinstance(new[-1], (ast.Return, ast.Raise))):
+                            new = new + [ast.copy_location(ast.Assign(targets=[astcopy(tgt)], value=ast.Constant(value=None)), st), astcopy(nxt_)]
+                        skip_next = True
                 else:
                     new = _convert_returns(body, lambda v: ([ast.copy_location(ast.Expr(value=v), st)] if isinstance(v, ast.Call) else []))
                 if new is None:
@@ -519,7 +548,105 @@ class Inliner:
                 me.log.append('inlined %s into %s%s' % (h.name, (cls + '.') if cls else '', fd.name))
             return out
 
+        def gen_inline(stmts):
+            """`for x in g(..): BODY` with g a new private generator helper whose yields are statements of their own: the helper's body with
+            each `yield e` replaced by `x = e; BODY` (BODY without break; `continue` only if the yield ends its loop body)"""
+            out = []
+            for st in stmts:
+                for fld in ('body', 'orelse', 'finalbody'):
+                    L = getattr(st, fld, None)
+                    if isinstance(L, list) and L and isinstance(L[0], ast.stmt) and not isinstance(st, (ast.FunctionDef, ast.ClassDef)):
+                        setattr(st, fld, gen_inline(L))
+                if not (isinstance(st, ast.For) and isinstance(st.iter, ast.Call) and not st.orelse and isinstance(st.target, (ast.Name, ast.Tuple))):
+                    out.append(st)
+                    continue
+                r = resolve(st.iter)
+                if not r:
+                    out.append(st)
+                    continue
+                h, recv = r
+                ys = [n for n in _walk_no_defs(h.body) if isinstance(n, (ast.Yield, ast.YieldFrom))]
+                if not ys or any(isinstance(n, ast.YieldFrom) for n in ys) or h.other_decorators:
+                    out.append(st)
+                    continue
+                ystmts = [n for n in _walk_no_defs(h.body) if isinstance(n, ast.Expr) and isinstance(n.value, ast.Yield)]
+                if len(ystmts) != len(ys) or any(isinstance(n, ast.Break) for b in st.body for n in _walk_no_defs([b])):
+                    out.append(st)
+                    continue
+                has_continue = any(isinstance(n, ast.Continue) for b in st.body for n in _walk_no_defs([b]))
+                env = me._bind(h, st.iter, recv)
+                if env is None:
+                    out.append(st)
+                    continue
+                pre = []
+                bad_param = False
+                ren0 = {}
+                for p in [p for p in env if p in _stores(h.body)]:
+                    a_ = env[p]
+                    later = [n for n in ast.walk(fd) if isinstance(n, ast.Name) and n.id == p and isinstance(n.ctx, ast.Load) and
+                             getattr(n, 'lineno', 0) > getattr(st, 'end_lineno', st.lineno)]
+                    if isinstance(a_, ast.Name) and a_.id == p and not later:
+                        del env[p]            # the helper works on the caller's variable of the same name, which is dead afterwards
+                    else:
+                        newp, k = p, 0
+                        while newp in taken:
+                            k += 1
+                            newp = '%s_%d' % (p, k)
+                        taken.add(newp)
+                        pre.append(ast.copy_location(ast.Assign(targets=[ast.Name(id=newp, ctx=ast.Store())], value=astcopy(a_)), st))
+                        if newp != p:
+                            ren0[p] = newp
+                        del env[p]
+                body = astcopy(h.body)
+                # the helper yields one of its own locals every time and the caller binds it to a plain name: use the caller's name for it
+                yvals = {ast.unparse(y.value) if y.value is not None else None for y in ys}
+                direct_name = None
+                if len(yvals) == 1 and isinstance(st.target, ast.Name) and isinstance(ys[0].value, ast.Name) and ys[0].value.id in _stores(h.body) \
+                        and ys[0].value.id not in h.params:
+                    direct_name = ys[0].value.id
+                ren = fresh_env(h, env, keep={direct_name} if direct_name else ())
+                if direct_name:
+                    ren.pop(direct_name, None)
+                    if direct_name != st.target.id:
+                        ren[direct_name] = st.target.id
+                ren.update(ren0)
+                if ren:
+                    body = [_Rename(ren).visit(b) for b in body]
+                body = [_Subst(env).visit(b) for b in body]
+                ok = [True]
+
+                def repl(stmts2, in_loop):
+                    res = []
+                    for i_, x in enumerate(stmts2):
+                        if isinstance(x, ast.Expr) and isinstance(x.value, ast.Yield):
+                            if has_continue and not (in_loop and i_ == len(stmts2) - 1):
+                                ok[0] = False
+                            if not (direct_name and isinstance(x.value.value, ast.Name) and x.value.value.id == st.target.id):
+                                res.append(ast.copy_location(ast.Assign(targets=[astcopy(st.target)], value=x.value.value or ast.Constant(value=None)), x))
+                            res.extend(astcopy(st.body))
+                            continue
+                        for fld in ('body', 'orelse', 'finalbody'):
+                            L = getattr(x, fld, None)
+                            if isinstance(L, list) and L and isinstance(L[0], ast.stmt) and not isinstance(x, (ast.FunctionDef, ast.ClassDef)):
+                                setattr(x, fld, repl(L, in_loop=isinstance(x, (ast.For, ast.While)) and fld == 'body'))
+                        if isinstance(x, ast.Return):
+                            ok[0] = ok[0] and False      # a bare return inside a generator ends the iteration only: not expressible inline
+                        res.append(x)
+                    return res
+                new = repl(body, False)
+                if not ok[0]:
+                    out.append(st)
+                    continue
+                new = pre + new
+                for n in new:
+                    ast.fix_missing_locations(n)
+                out.extend(new)
+                count[0] += 1
+                me.log.append('inlined generator %s into %s%s' % (h.name, (cls + '.') if cls else '', fd.name))
+            return out
+
         fd.body = stmt_inline(fd.body)
+        fd.body = gen_inline(fd.body)
         ExprInline().visit(fd)
         if local_helpers and count[0]:
             # drop the local helper definitions that are no longer referenced
@@ -578,6 +705,15 @@ class Inliner:
                         else:
                             args.append(a)
                     n.args = args
+                if any(k.arg is None and isinstance(k.value, ast.Dict) and all(isinstance(x, ast.Constant) and isinstance(x.value, str) for x in k.value.keys)
+                       for k in n.keywords):
+                    kws = []
+                    for k in n.keywords:
+                        if k.arg is None and isinstance(k.value, ast.Dict) and all(isinstance(x, ast.Constant) and isinstance(x.value, str) for x in k.value.keys):
+                            kws.extend(ast.keyword(arg=kk.value, value=vv) for kk, vv in zip(k.value.keys, k.value.values))
+                        else:
+                            kws.append(k)
+                    n.keywords = kws
                 return n
         class T(ast.NodeTransformer):
             def visit_Assign(self, n):
@@ -591,10 +727,99 @@ class Inliner:
             T().visit(tree)
             _drop_pass(tree)
 
+    # ------------------------------------------------------------------------------------------------ 4. pieces collected in a list and joined
+    def join_form(self):
+        """`L = []; L.append(e) ...; ''.join(L)`  ==  `L = ''; L += e ...; L` when L is used for nothing else."""
+        for tree in self.trees.values():
+            for fd in [n for n in ast.walk(tree) if isinstance(n, ast.FunctionDef)]:
+                inits = {}
+                for n in _walk_no_defs(fd.body):
+                    if isinstance(n, ast.Assign) and len(n.targets) == 1 and isinstance(n.targets[0], ast.Name) and isinstance(n.value, ast.List) and not n.value.elts:
+                        inits.setdefault(n.targets[0].id, []).append(n)
+                for L, ini in inits.items():
+                    if len(ini) != 1:
+                        continue
+                    loads = [n for n in _walk_no_defs(fd.body) if isinstance(n, ast.Name) and n.id == L]
+                    ok_uses = set()
+                    joins, appends, extends, augs = [], [], [], []
+                    for n in _walk_no_defs(fd.body):
+                        if isinstance(n, ast.Call) and isinstance(n.func, ast.Attribute) and n.func.attr == 'join' and isinstance(n.func.value, ast.Constant) and \
+                                n.func.value.value == '' and len(n.args) == 1 and isinstance(n.args[0], ast.Name) and n.args[0].id == L:
+                            joins.append(n)
+                            ok_uses.add(id(n.args[0]))
+                        if isinstance(n, ast.Expr) and isinstance(n.value, ast.Call) and isinstance(n.value.func, ast.Attribute) and \
+                                isinstance(n.value.func.value, ast.Name) and n.value.func.value.id == L and len(n.value.args) == 1 and not n.value.keywords:
+                            if n.value.func.attr == 'append':
+                                appends.append(n)
+                                ok_uses.add(id(n.value.func.value))
+                            elif n.value.func.attr == 'extend' and isinstance(n.value.args[0], (ast.List, ast.Tuple, ast.GeneratorExp, ast.ListComp)):
+                                a0 = n.value.args[0]
+                                if isinstance(a0, (ast.GeneratorExp, ast.ListComp)) and len(a0.generators) != 1:
+                                    continue
+                                extends.append(n)
+                                ok_uses.add(id(n.value.func.value))
+                        if isinstance(n, ast.AugAssign) and isinstance(n.target, ast.Name) and n.target.id == L and isinstance(n.op, ast.Add) and \
+                                isinstance(n.value, (ast.List, ast.Tuple)):
+                            augs.append(n)
+                            ok_uses.add(id(n.target))
+                    ok_uses.add(id(ini[0].targets[0]))
+                    if not joins or any(id(n) not in ok_uses for n in loads):
+                        continue
+                    if any(L in {x.id for x in ast.walk(e) if isinstance(x, ast.Name)} for a in appends for e in a.value.args):
+                        continue
+                    ini[0].value = ast.copy_location(ast.Constant(value=''), ini[0].value)
+                    repl = {}
+                    for a in appends:
+                        repl[id(a)] = [ast.copy_location(ast.AugAssign(target=ast.Name(id=L, ctx=ast.Store()), op=ast.Add(), value=a.value.args[0]), a)]
+                    for a in augs:
+                        repl[id(a)] = [ast.copy_location(ast.AugAssign(target=ast.Name(id=L, ctx=ast.Store()), op=ast.Add(), value=e), a) for e in a.value.elts]
+                    for a in extends:
+                        a0 = a.value.args[0]
+                        if isinstance(a0, (ast.List, ast.Tuple)):
+                            repl[id(a)] = [ast.copy_location(ast.AugAssign(target=ast.Name(id=L, ctx=ast.Store()), op=ast.Add(), value=e), a) for e in a0.elts]
+                        else:
+                            g = a0.generators[0]
+                            inner = [ast.copy_location(ast.AugAssign(target=ast.Name(id=L, ctx=ast.Store()), op=ast.Add(), value=a0.elt), a)]
+                            for c in reversed(g.ifs):
+                                inner = [ast.copy_location(ast.If(test=c, body=inner, orelse=[]), a)]
+                            repl[id(a)] = [ast.copy_location(ast.For(target=g.target, iter=g.iter, body=inner, orelse=[], type_comment=None), a)]
+
+                    def rewrite(stmts):
+                        out = []
+                        for st in stmts:
+                            if id(st) in repl:
+                                out.extend(repl[id(st)])
+                                continue
+                            for fld in ('body', 'orelse', 'finalbody'):
+                                Ls = getattr(st, fld, None)
+                                if isinstance(Ls, list) and Ls and isinstance(Ls[0], ast.stmt) and not isinstance(st, (ast.FunctionDef, ast.ClassDef)):
+                                    setattr(st, fld, rewrite(Ls))
+                            if isinstance(st, ast.Try):
+                                for h in st.handlers:
+                                    h.body = rewrite(h.body)
+                            out.append(st)
+                        return out
+                    fd.body = rewrite(fd.body)
+                    jids = {id(j) for j in joins}
+
+                    class J(ast.NodeTransformer):
+                        def visit_Call(self, n):
+                            self.generic_visit(n)
+                            if id(n) in jids:
+                                return ast.copy_location(ast.Name(id=L, ctx=ast.Load()), n)
+                            return n
+
+                        def visit_FunctionDef(self, n):
+                            return n if n is not fd else self.generic_visit(n)
+                    J().visit(fd)
+                    ast.fix_missing_locations(fd)
+                    self.log.append('pieces list %s of %s written as a string accumulator' % (L, fd.name))
+
     def run(self):
         self.renames()
         self.inline()
         self.unbound_calls()
+        self.join_form()
         if self.log:
             self.simplify()
         for tree in self.trees.values():
